@@ -1,6 +1,7 @@
 """encode / impl / render for cases that may be tier-level (tierops) or Textgrid-level (tgops, op 'tg_*')"""
 import tierops
 import tgops
+import scriptops   # ops sc_split / sc_spell / u_wsplit (DESIGN 11.8)
 
 
 def is_tg(c):
@@ -8,19 +9,29 @@ def is_tg(c):
 
 
 def encode(c, enc):
+    if scriptops.is_sc(c):
+        return scriptops.encode(c, enc)
     return tgops.encode(c, enc) if is_tg(c) else tierops.encode(c, enc)
 
 
 def impl(c, objs=None):
+    if scriptops.is_sc(c):
+        return scriptops.impl(c, objs)
     return tgops.impl(c, objs) if is_tg(c) else tierops.impl(c, objs)
 
 
 def render(c, r, enc):
+    if scriptops.is_sc(c):
+        return scriptops.render(c, r, enc)
     return tgops.render(c, r, enc) if is_tg(c) else tierops.render(c, r, enc)
 
 
 def shrink(c):
     import tiers as T
+    if scriptops.is_sc(c):
+        if "tg" in c:
+            yield from tgops.shrink_tg(c)
+        return
     if is_tg(c):
         yield from tgops.shrink_tg(c)
         return
